@@ -166,7 +166,14 @@ pub struct Config {
 #[derive(Clone, Debug, Serialize, Deserialize)]
 pub enum Event {
     Seal { len: usize, fill: u64 },
-    Deliver { slot: usize, fault: Fault },
+    Deliver {
+        slot: usize,
+        fault: Fault,
+        /// the caller's message buffer is this many bytes longer than needed (classic
+        /// copying receivers only; C17 / C04 runs). The verdict is not judged then.
+        #[serde(default)]
+        oversize: usize,
+    },
     /// A malicious sender whose public key (or sealed-box ephemeral key) is a
     /// small-order point: the shared secret is all-zero for every recipient, so
     /// anybody can mint a box that authenticates. Whatever the receiver's
@@ -210,6 +217,8 @@ pub struct BoxWorld {
     planned: bool,
     /// C17: error text of rejected deliveries, keyed by the lengths the receiver saw
     err_texts: std::collections::BTreeMap<(String, usize, usize), String>,
+    /// extra bytes appended to the caller's message buffer for the delivery in flight
+    oversize: std::cell::Cell<usize>,
 }
 
 pub fn install_rng(seed: u64) {
@@ -606,6 +615,7 @@ impl BoxWorld {
         let overhead = if suite == Suite::Sealed { 48 } else { 16 };
         let mut obs: Option<C17Obs> = None;
         let mut err_text: Option<String> = None;
+        let extra = self.oversize.get();
         let a_pk = d.peer_pk;
         let b_pk = self.b_pk;
         let b_sk = self.b_sk;
@@ -613,14 +623,14 @@ impl BoxWorld {
         let r = guarded(|| -> Option<Vec<u8>> {
             match (suite, rf) {
                 (Suite::Secretbox, RForm::OpenEasy) => {
-                    let mut m = vec![SENTINEL; d.combined.len().saturating_sub(16)];
+                    let mut m = vec![SENTINEL; d.combined.len().saturating_sub(16) + extra];
                     let before = m.clone();
                     let r = crypto_secretbox_open_easy(&mut m, &d.combined, &d.nonce, &d.key);
                     obs = Some(C17Obs { before, after: m.clone(), ok: r.is_ok() });
                     r.map_err(|e| { err_text = Some(format!("{:?}", e)); e }).ok().map(|_| m)
                 }
                 (Suite::Secretbox, RForm::OpenDetached) => {
-                    let mut m = vec![SENTINEL; d.body.len()];
+                    let mut m = vec![SENTINEL; d.body.len() + extra];
                     let before = m.clone();
                     let r = crypto_secretbox_open_detached(&mut m, &d.mac, &d.body, &d.nonce, &d.key);
                     obs = Some(C17Obs { before, after: m.clone(), ok: r.is_ok() });
@@ -672,14 +682,14 @@ impl BoxWorld {
                     b.unseal::<_, _, Vec<u8>>(&kp).ok()
                 }
                 (Suite::Box, RForm::OpenEasy) => {
-                    let mut m = vec![SENTINEL; d.combined.len().saturating_sub(16)];
+                    let mut m = vec![SENTINEL; d.combined.len().saturating_sub(16) + extra];
                     let before = m.clone();
                     let r = crypto_box_open_easy(&mut m, &d.combined, &d.nonce, &a_pk, &b_sk);
                     obs = Some(C17Obs { before, after: m.clone(), ok: r.is_ok() });
                     r.map_err(|e| { err_text = Some(format!("{:?}", e)); e }).ok().map(|_| m)
                 }
                 (Suite::Box, RForm::OpenDetached) => {
-                    let mut m = vec![SENTINEL; d.body.len()];
+                    let mut m = vec![SENTINEL; d.body.len() + extra];
                     let before = m.clone();
                     let r = crypto_box_open_detached(&mut m, &d.mac, &d.body, &d.nonce, &a_pk, &b_sk);
                     obs = Some(C17Obs { before, after: m.clone(), ok: r.is_ok() });
@@ -700,7 +710,7 @@ impl BoxWorld {
                     r.map_err(|e| { err_text = Some(format!("{:?}", e)); e }).ok().map(|_| m)
                 }
                 (Suite::Box, RForm::OpenDetachedAfternm) => {
-                    let mut m = vec![SENTINEL; d.body.len()];
+                    let mut m = vec![SENTINEL; d.body.len() + extra];
                     let before = m.clone();
                     let r = crypto_box_open_detached_afternm(&mut m, &d.mac, &d.body, &d.nonce, &d.key);
                     obs = Some(C17Obs { before, after: m.clone(), ok: r.is_ok() });
@@ -842,7 +852,7 @@ impl World for BoxWorld {
         let sb_key = crypto_secretbox_keygen();
         let (a_pk, a_sk) = crypto_box_keypair();
         let (b_pk, b_sk) = crypto_box_keypair();
-        BoxWorld { cfg: cfg.clone(), sb_key, a_pk, a_sk, b_pk, b_sk, packets: Vec::new(), plan: Vec::new(), planned: false, err_texts: std::collections::BTreeMap::new() }
+        BoxWorld { cfg: cfg.clone(), sb_key, a_pk, a_sk, b_pk, b_sk, packets: Vec::new(), plan: Vec::new(), planned: false, err_texts: std::collections::BTreeMap::new(), oversize: std::cell::Cell::new(0) }
     }
 
     fn next_event(&mut self, rng: &mut Rng) -> Option<Event> {
@@ -869,7 +879,7 @@ impl World for BoxWorld {
             }
             let overhead = if self.cfg.suite == Suite::Sealed { 48 } else { 16 };
             for slot in 0..self.cfg.packets {
-                plan.push(Event::Deliver { slot, fault: Fault::None });
+                plan.push(Event::Deliver { slot, fault: Fault::None, oversize: 0 });
                 if !self.cfg.fault_free {
                     let nf = 1 + rng.usize_below(5);
                     for _ in 0..nf {
@@ -898,19 +908,32 @@ impl World for BoxWorld {
                         } else {
                             match rng.below(20) {
                                 0..=3 => Fault::Flip { comp: Comp::Tag, bit: rng.usize_below(128) },
-                                4..=7 => Fault::Flip { comp: Comp::Body, bit: rng.usize_below(8 * len.max(1)) },
+                                4..=7 => {
+                                    // messages beyond 64 KiB: half of the body flips land within 32 bytes of a
+                                    // power-of-two / 16-bit boundary or of the end (where width-limited
+                                    // arithmetic goes wrong), the rest anywhere
+                                    let bit = if len >= 60_000 && rng.chance(1, 2) {
+                                        let anchor = *rng.pick(&[65_536usize, 65_535, 65_520, 32_768, 131_072, len]);
+                                        let byte = anchor.saturating_sub(rng.usize_below(33)).min(len - 1);
+                                        byte * 8 + rng.usize_below(8)
+                                    } else {
+                                        rng.usize_below(8 * len.max(1))
+                                    };
+                                    Fault::Flip { comp: Comp::Body, bit }
+                                }
                                 8..=10 => Fault::Flip { comp: Comp::Nonce, bit: rng.usize_below(192) },
                                 11..=12 => Fault::Flip { comp: Comp::Epk, bit: rng.usize_below(256) },
                                 13..=14 => Fault::Flip { comp: Comp::Key, bit: rng.usize_below(256) },
                                 15 => Fault::Fill { comp: *rng.pick(&[Comp::Tag, Comp::Tag, Comp::Body, Comp::Nonce, Comp::Epk, Comp::Key]), value: *rng.pick(&[0x00u8, 0xff, 0x80, 0x01]) },
-                                16..=17 => Fault::Truncate { k: 1 + rng.usize_below(wire) },
+                                16..=17 => Fault::Truncate { k: if len >= 60_000 && rng.chance(1, 2) { 1 + rng.usize_below(33) } else { 1 + rng.usize_below(wire) } },
                                 _ => Fault::Extend { k: if rng.chance(3, 4) { 1 + rng.usize_below(33) } else { 1 + rng.usize_below(300) }, fill: rng.below(256) as u8 },
                             }
                         };
-                        plan.push(Event::Deliver { slot, fault: f });
+                        let oversize = if (c04 || self.cfg.prop == "C17") && self.cfg.rform.classic() && rng.chance(1, 6) { 1 + rng.usize_below(32) } else { 0 };
+                        plan.push(Event::Deliver { slot, fault: f, oversize });
                     }
                     // faults stop: the genuine tuple must still open
-                    plan.push(Event::Deliver { slot, fault: Fault::None });
+                    plan.push(Event::Deliver { slot, fault: Fault::None, oversize: 0 });
                 }
             }
             if !self.cfg.fault_free && self.cfg.suite != Suite::Secretbox && !self.cfg.rform.uses_symmetric_key(self.cfg.suite) && rng.chance(1, 3) {
@@ -992,10 +1015,11 @@ impl World for BoxWorld {
                     }
                 }
             }
-            Event::Deliver { slot, fault } => {
+            Event::Deliver { slot, fault, oversize } => {
                 if self.packets.is_empty() {
                     return; // nothing on the channel (minimised run): no-op
                 }
+                self.oversize.set(*oversize);
                 let p = self.packets[slot % self.packets.len()].clone();
                 let d = self.corrupt(&p, fault, out);
                 let identical = self.identical(&p, &d);
@@ -1050,9 +1074,12 @@ impl World for BoxWorld {
                         format!("largest single allocation during the call was {} bytes for a {}-byte delivery (bound {})", peak, wire_len, bound),
                     );
                 }
-                // ---- C02: accept iff identical
+                // ---- C02: accept iff identical (not judged when the caller's buffer is oversize:
+                // whether an oversize buffer is served or refused is the implementation's choice)
                 let accepted = matches!(&res, Ok(Some(_)));
-                if identical {
+                if *oversize > 0 {
+                    out.fault("oversize.buffer");
+                } else if identical {
                     out.probe("deliver.identical");
                     let good = matches!(&res, Ok(Some(m)) if *m == p.plain);
                     if !good {
@@ -1143,32 +1170,36 @@ impl World for BoxWorld {
                 }
                 v
             }
-            Event::Deliver { slot, fault } => {
+            Event::Deliver { slot, fault, oversize } => {
+                let oversize = *oversize;
                 let mut v = Vec::new();
+                if oversize > 1 {
+                    v.push(Event::Deliver { slot: *slot, fault: fault.clone(), oversize: 1 });
+                }
                 if *slot > 0 {
-                    v.push(Event::Deliver { slot: 0, fault: fault.clone() });
+                    v.push(Event::Deliver { slot: 0, fault: fault.clone(), oversize });
                 }
                 match fault {
                     Fault::Flip { comp, bit } if *bit > 0 => {
-                        v.push(Event::Deliver { slot: *slot, fault: Fault::Flip { comp: *comp, bit: 0 } });
-                        v.push(Event::Deliver { slot: *slot, fault: Fault::Flip { comp: *comp, bit: bit / 2 } });
+                        v.push(Event::Deliver { slot: *slot, fault: Fault::Flip { comp: *comp, bit: 0 }, oversize });
+                        v.push(Event::Deliver { slot: *slot, fault: Fault::Flip { comp: *comp, bit: bit / 2 }, oversize });
                     }
                     Fault::Truncate { k } if *k > 1 => {
-                        v.push(Event::Deliver { slot: *slot, fault: Fault::Truncate { k: 1 } });
-                        v.push(Event::Deliver { slot: *slot, fault: Fault::Truncate { k: k / 2 } });
+                        v.push(Event::Deliver { slot: *slot, fault: Fault::Truncate { k: 1 }, oversize });
+                        v.push(Event::Deliver { slot: *slot, fault: Fault::Truncate { k: k / 2 }, oversize });
                     }
                     Fault::Extend { k, fill } if *k > 1 || *fill != 0 => {
-                        v.push(Event::Deliver { slot: *slot, fault: Fault::Extend { k: 1, fill: 0 } });
-                        v.push(Event::Deliver { slot: *slot, fault: Fault::Extend { k: (k / 2).max(1), fill: *fill } });
+                        v.push(Event::Deliver { slot: *slot, fault: Fault::Extend { k: 1, fill: 0 }, oversize });
+                        v.push(Event::Deliver { slot: *slot, fault: Fault::Extend { k: (k / 2).max(1), fill: *fill }, oversize });
                     }
                     Fault::Garbage { len, kind } if *len > 0 || *kind != 0 => {
-                        v.push(Event::Deliver { slot: *slot, fault: Fault::Garbage { len: 0, kind: 0 } });
-                        v.push(Event::Deliver { slot: *slot, fault: Fault::Garbage { len: len / 2, kind: *kind } });
-                        v.push(Event::Deliver { slot: *slot, fault: Fault::Garbage { len: len.saturating_sub(1), kind: *kind } });
-                        v.push(Event::Deliver { slot: *slot, fault: Fault::Garbage { len: *len, kind: 0 } });
+                        v.push(Event::Deliver { slot: *slot, fault: Fault::Garbage { len: 0, kind: 0 }, oversize });
+                        v.push(Event::Deliver { slot: *slot, fault: Fault::Garbage { len: len / 2, kind: *kind }, oversize });
+                        v.push(Event::Deliver { slot: *slot, fault: Fault::Garbage { len: len.saturating_sub(1), kind: *kind }, oversize });
+                        v.push(Event::Deliver { slot: *slot, fault: Fault::Garbage { len: *len, kind: 0 }, oversize });
                     }
                     Fault::Splice { at, n, fill } if *n > 1 => {
-                        v.push(Event::Deliver { slot: *slot, fault: Fault::Splice { at: *at, n: 1, fill: *fill } });
+                        v.push(Event::Deliver { slot: *slot, fault: Fault::Splice { at: *at, n: 1, fill: *fill }, oversize });
                     }
                     _ => {}
                 }
